@@ -647,7 +647,7 @@ func (w *World) judge(s *side, ev event, pre invObs, out stepOut) {
 				w.violate("settle-unrecorded", store, st, fmt.Sprintf("%s: settle ordered (%s) for htlc k%d which the invoice records as %s", ev.op, via, k, st))
 			}
 			if s.hist[k] == 3 {
-				w.violate("both", store, "cancel-then-settle", fmt.Sprintf("%s: settle ordered (%s) for htlc k%d that was ordered canceled before", ev.op, via, k))
+				w.violate("both", store, "cancel("+w.lastCancel[k]+")-then-settle", fmt.Sprintf("%s: settle ordered (%s) for htlc k%d that was ordered canceled before", ev.op, via, k))
 			}
 			s.hist[k] = 2
 			return
